@@ -248,7 +248,8 @@ def product_order_rule(chk, src):
     f = {q: src.func(OP, q) for q in ("Op.__mul__", "Op.__rmul__", "OpSum.__mul__", "OpSum.__rmul__", "Op.__add__", "Op.__radd__", "Op.__neg__", "Op.__sub__",
                                       "OpSum.__add__", "OpSum.__iadd__", "OpSum.__neg__", "OpSum.__sub__", "OpSum.__truediv__")}
     cur_self = []
-    it = SymInterp(src, None, {})
+    from .chain_rules import class_resolver
+    it = SymInterp(src, class_resolver(src, {"Op": OP, "OpSum": OP}), {})
     it.max_depth = 30
     it.check_asserts = True
 
@@ -256,6 +257,7 @@ def product_order_rule(chk, src):
         """an operator: ordered word of elementary operator names and a scalar factor"""
         def __init__(self, letters, factor=()):
             super().__init__("*".join(letters) + ("" if not factor else "[" + "*".join(factor) + "]"))
+            self._cls = "Op"
             self.letters, self.fac = tuple(letters), tuple(sorted(factor))
             self.symbol, self.dofs, self.qn_list = ("symbol", self.letters), ("dofs", self.letters), ("qn", self.letters)
 
@@ -313,6 +315,8 @@ def product_order_rule(chk, src):
             return NpScal(f"{o}/{self.name}")
 
     class Sum(list):
+        _cls = "OpSum"
+
         def _call(self, q, *a):
             cur_self.append(self)
             try:
@@ -354,7 +358,8 @@ def product_order_rule(chk, src):
             return cur_self[-1]
 
         def __mul__(self, o):
-            raise AnalysisError("list repetition branch reached")
+            # reaching list.__mul__ is a verdict about the analysed code (the operand is treated as a repetition count), not an incapacity of the stand-ins
+            raise RuntimeError("the plain list repetition list * n is reached: the operand is not recognised as a scalar factor")
 
         __rmul__ = __mul__
 
@@ -435,6 +440,8 @@ def product_order_rule(chk, src):
         try:
             got = words(run_())
             err = None
+        except AnalysisError:
+            raise                   # the stand-ins cannot follow the code: no verdict
         except Exception as e:      # TypeError raised by the interpreted code, recursion ...
             got, err = None, f"{type(e).__name__}: {e}"
         chk.ob("operand-order", name, got == want, f["Op.__mul__"].where, err or [".".join(w) + ("" if not fc else "*" + "*".join(fc)) for w, fc in got],
@@ -672,6 +679,7 @@ def simplify_order_rule(chk, src):
     class Term(Sym):
         def __init__(self, word, factor, squeezed=True):
             super().__init__(f"{factor}*{word}")
+            self._cls = "Op"
             self.word, self.factor, self.squeezed = word, factor, squeezed
             self.symbol, self.dofs, self.qn_list = ("symbol", word), ("dofs", word), ("qn", word)
 
@@ -682,14 +690,16 @@ def simplify_order_rule(chk, src):
             return self.word == o.word
 
     class OpS(list):
-        pass
+        _cls = "OpSum"
+    from .chain_rules import class_resolver
+    resolve = class_resolver(src, {"Op": OP, "OpSum": OP})
     cases = {
         "duplicates and cancellation": ([("X Y", Fr(2)), ("Z", Fr(3)), ("X Y", Fr(-2)), ("Z", Fr(1, 2)), ("W", Fr(5))], Fr(0), [("Z", Fr(7, 2)), ("W", Fr(5))]),
         "copies below the tolerance summing above it": ([("A", Fr(6, 10 ** 11)), ("B", Fr(1)), ("A", Fr(6, 10 ** 11)), ("C", Fr(1, 10 ** 12))], Fr(1, 10 ** 10), [("A", Fr(12, 10 ** 11)), ("B", Fr(1))]),
         "identity factors squeezed before comparing": ([("X I Y", Fr(1, 2)), ("X Y", Fr(1, 2)), ("Z", Fr(1, 10 ** 4))], Fr(1, 10 ** 3), [("X Y", Fr(1))]),
     }
     for name, (terms, atol, want) in cases.items():
-        it = SymInterp(src, None, {"OpSum": lambda x=(): OpS(x), "Op": lambda symbol, dofs, factor=1, qn=None: Term(symbol[1], factor), "np": Sym("np", abs=abs, isclose=lambda a, b, **k: a == b, allclose=lambda a, b, **k: a == b),
+        it = SymInterp(src, resolve, {"OpSum": lambda x=(): OpS(x), "Op": lambda symbol, dofs, factor=1, qn=None: Term(symbol[1], factor), "np": Sym("np", abs=abs, isclose=lambda a, b, **k: a == b, allclose=lambda a, b, **k: a == b),
                                    "abs": abs, "sum": lambda xs, start=0: sum(xs, start)})
         it.max_depth = 8
         me = OpS([Term(w, f) for w, f in terms])
